@@ -276,14 +276,20 @@ func cmdVerify(args []string) int {
 	rr := &RunResult{Prop: *prop, Tier: *tier, LoadS: time.Since(t0).Seconds(), BySolver: map[string]int{}}
 
 	// select units
+	safetyOnlyUnits := map[string]bool{}
 	var keys []string
 	if *unitsF != "" {
 		keys = strings.Split(*unitsF, ",")
 	} else {
 		for k, c := range db.Funcs {
 			for _, pr := range c.Props {
-				if pr == *prop && !c.Trusted && !c.NoVerify {
+				// "Cxx:safety": the unit belongs to property Cxx with its run-time safety
+				// obligations only (its functional obligations are another property's)
+				if (pr == *prop || pr == *prop+":safety") && !c.Trusted && !c.NoVerify {
 					keys = append(keys, k)
+					if pr == *prop+":safety" {
+						safetyOnlyUnits[k] = true
+					}
 				}
 			}
 		}
@@ -335,6 +341,7 @@ func cmdVerify(args []string) int {
 			continue
 		}
 		x := newExec(p, db, shortUnit(unitName))
+		x.safetyOnly = safetyOnlyUnits[key]
 		if fn.Pkg != nil {
 			x.useOpaque(fn.Pkg.Pkg.Path())
 		}
